@@ -31,8 +31,8 @@ NSHARDS = 16
 
 
 def plan(tier, seed):
-    n = 5000 if tier == "quick" else 300000
-    k = 1500 if tier == "quick" else 60000
+    n = 12000 if tier == "quick" else 900000
+    k = 4000 if tier == "quick" else 180000
     specs = [{"kind": "random", "start": p * (n // NSHARDS), "count": n // NSHARDS} for p in range(NSHARDS)]
     specs += [{"kind": "superpose", "start": p * (k // NSHARDS), "count": k // NSHARDS} for p in range(NSHARDS)]
     return specs
